@@ -13,6 +13,7 @@ pub mod c13;
 pub mod c14;
 pub mod c15;
 pub mod c16;
+pub mod c17;
 pub mod c18;
 pub mod c19;
 pub mod c20;
@@ -34,6 +35,7 @@ pub fn get(id: &str) -> Option<Box<dyn Check>> {
         "C18" => Some(Box::new(c18::C18)),
         "C20" => Some(Box::new(c20::C20)),
         "C19" => Some(Box::new(c19::C19)),
+        "C17" => Some(Box::new(c17::C17)),
         "C05" => Some(Box::new(c05::C05)),
         _ => None,
     }
